@@ -77,7 +77,7 @@ fn lockstep<S: Spec>(seed: &[u8], n_out: usize, image_every: usize, mix_widths: 
         };
         r.eval();
         if k < 4 {
-            first.push(hx64(got));
+            first.push(got);
         }
         if got != want {
             r.violation(
@@ -125,7 +125,10 @@ fn lockstep<S: Spec>(seed: &[u8], n_out: usize, image_every: usize, mix_widths: 
             }
         }
     }
-    r.sample(json!({"type": S::NAME, "seed": hex(seed), "outputs_compared": n_out, "first_outputs": first}));
+    if r.wants_sample() {
+        let first: Vec<String> = first.iter().map(|&g| hx64(g)).collect();
+        r.sample(json!({"type": S::NAME, "seed": hex(seed), "outputs_compared": n_out, "first_outputs": first}));
+    }
     true
 }
 
@@ -259,6 +262,9 @@ fn model_inverse(name: &'static str, seed_len: usize) -> Option<std::sync::Arc<c
     inv
 }
 
+const AB_STAGES: u64 = 9;
+const AB_PATTERNS: u64 = 8;
+
 fn word_bytes(f: Family) -> usize {
     (f.native_bits() / 8) as usize
 }
@@ -274,7 +280,7 @@ fn case(prop: u32, sub: &str, id: u64, ctx: &Ctx, r: &mut Report) {
                 let (mut class, mut seed) = gen_seed(&mut p, S::SEED_LEN, word_bytes(S::FAMILY), !S::LINEAR);
                 // a quarter of the short runs of the linear engines start k steps
                 // BEFORE a structured state (pre-image under the reference step)
-                if S::LINEAR && sub == "seedrun" && p.chance(1, 4) {
+                if S::LINEAR && sub == "seedrun" && p.chance(1, 4) && !crate::util::REDUCED.load(std::sync::atomic::Ordering::Relaxed) {
                     if let Some(inv) = model_inverse(S::NAME, S::SEED_LEN) {
                         let mut v = crate::models::gf2::BitVec::from_bytes(&seed);
                         for _ in 0..p.range(1, 3) {
@@ -502,6 +508,71 @@ fn case(prop: u32, sub: &str, id: u64, ctx: &Ctx, r: &mut Report) {
                 }
             });
         }
+        // one state word set to a PRE-IMAGE of a boundary value of an intermediate of the
+        // output scrambler (x*5, rotl(x*5,7)*9, x*0x9E3779BB, s_i + s_j, state + gamma):
+        // half-word carries, wrapped sums and products that are 0 / 2^h - 1 / 2^h in one
+        // half (enumerated: id = index | variant << 32)
+        "arith_boundary" => {
+            let nt = types.len() as u64;
+            let idx = id & 0xffff_ffff;
+            let reduced = crate::util::REDUCED.load(std::sync::atomic::Ordering::Relaxed);
+            let ti = types[(idx % nt) as usize];
+            let k = idx / nt;
+            with_spec!(ti, S => {
+                let wb = word_bytes(S::FAMILY).min(S::SEED_LEN);
+                let nw = (S::SEED_LEN / wb) as u64;
+                let word = (k % nw) as usize;
+                let stage = (k / nw) % AB_STAGES;
+                let pat = (k / nw / AB_STAGES) % AB_PATTERNS;
+                let bits = wb as u32 * 8;
+                let h = bits / 2;
+                let mask = if bits == 64 { u64::MAX } else { (1u64 << bits) - 1 };
+                let hm = (1u64 << h) - 1;
+                let small = p.below(4);
+                let v = match pat {
+                    0 => p.u64() & hm,                                   // high half 0
+                    1 => (hm << h) | (p.u64() & hm),                     // high half all ones
+                    2 => (p.u64() & hm) << h,                            // low half 0
+                    3 => ((p.u64() & hm) << h) | hm,                     // low half all ones
+                    4 => hm - small,                                     // just below 2^h
+                    5 => (1u64 << h) + small,                            // just above 2^h
+                    6 => mask - small,                                   // just below 2^bits
+                    _ => small,                                          // just above 0
+                } & mask;
+                let inv = |c: u64| -> u64 { let mut x = c; for _ in 0..6 { x = x.wrapping_mul(2u64.wrapping_sub(c.wrapping_mul(x))); } x & mask };
+                let rotr = |x: u64, n: u32| -> u64 { ((x >> n) | (x << (bits - n))) & mask };
+                let mul = |a: u64, b: u64| -> u64 { a.wrapping_mul(b) & mask };
+                let mut seed = vec![0u8; S::SEED_LEN];
+                p.fill(&mut seed);
+                let mut others: Option<u64> = None;
+                let x = match stage {
+                    0 => mul(inv(5), v),                                       // x*5 = v
+                    1 => mul(inv(9), v),
+                    2 => mul(inv(0x9E37_79BB), v),
+                    3 => mul(inv(5), rotr(v, 7)),                              // rotl(x*5, 7) = v
+                    4 => mul(inv(5), rotr(mul(inv(9), v), 7)),                 // rotl(x*5, 7)*9 = v
+                    5 => mul(inv(0x9E37_79BB), rotr(v, 5)),                    // rotl(x*0x9E3779BB, 5) = v
+                    6 => mul(inv(0x9E37_79BB), rotr(mul(inv(5), v), 5)),       // rotl(x*0x9E3779BB, 5)*5 = v
+                    7 => v.wrapping_sub(0x9e37_79b9_7f4a_7c15) & mask,         // x + gamma = v
+                    _ => {
+                        // every sum s_word + s_j = v
+                        let x = p.u64() & mask;
+                        others = Some(v.wrapping_sub(x) & mask);
+                        x
+                    }
+                };
+                let wr = |s: &mut [u8], i: usize, v: u64| { for b in 0..wb { s[i * wb + b] = (v >> (8 * b)) as u8; } };
+                if let Some(o) = others {
+                    for j in 0..nw as usize { wr(&mut seed, j, o); }
+                }
+                wr(&mut seed, word, x);
+                if !(S::LINEAR && seed.iter().all(|&b| b == 0)) && lockstep::<S>(&seed, if reduced { 3 } else { 6 }, if reduced { 0 } else { 5 }, true, sub, id, r) {
+                    r.distinct(hkey(&[&S::NAME, &seed]));
+                    r.cov("arith_boundary");
+                    r.cov(&format!("arith_boundary_stage:{}", stage));
+                }
+            });
+        }
         // mixed-width access against the MODEL's word stream: next_u32 / next_u64 /
         // fill_bytes with large and unaligned destinations (bulk paths)
         "mixed" => {
@@ -691,6 +762,7 @@ pub fn run(prop: u32, ctx: &Ctx, only: Option<&Only>) -> Report {
     let types = types_of(prop);
     let nt = types.len() as u64;
     let mut total = Report::new();
+    ctx.progress("single_byte / special");
     // enumerated single-byte seeds (largest seed is 64 bytes => 192 per type)
     let max_seed = 64 * 3;
     total.merge(crate::util::par(ctx.threads, |t, r| {
@@ -722,6 +794,29 @@ pub fn run(prop: u32, ctx: &Ctx, only: Option<&Only>) -> Report {
     if prop == 2 {
         // 64 x 25 000 seeds in the quick tier
         total.merge(drive(ctx, "many_seeds", 64, secs * 0.1, |id, r| case(prop, "many_seeds", id, ctx, r)));
+    }
+    ctx.progress("arith_boundary / wrap32 / model_boundary");
+    if prop == 1 {
+        // scrambler-intermediate boundary pre-images: every (type, word, stage, pattern);
+        // interpreter shards split the list between them instead of thinning it
+        let reduced = crate::util::REDUCED.load(std::sync::atomic::Ordering::Relaxed);
+        let variants: u64 = if reduced { 1 } else { 4 };
+        total.merge(crate::util::par(ctx.threads, |t, r| {
+            let n = nt * 8 * AB_STAGES * AB_PATTERNS;
+            for var in 0..variants {
+                let variant = ctx.seed.wrapping_mul(4).wrapping_add(var) & 0xffff_ffff;
+                let mut k = t as u64;
+                while k < n {
+                    if !reduced || k % 16 == ctx.seed % 16 {
+                        if reduced && (k / 16) % 100 == 0 { ctx.progress(&format!("arith_boundary {}/{}", k, n)); }
+                        let id = k | (variant << 32);
+                        super::run_case("arith_boundary", id, r, &|id, r: &mut Report| case(prop, "arith_boundary", id, ctx, r));
+                    }
+                    k += ctx.threads as u64;
+                }
+            }
+        }));
+        total.floor("arith_boundary", 1_000);
     }
     // 2^32-step runs: XorShiftRng always (about 10 s on one core); every other
     // small generator in the thorough tier, one thread per type
